@@ -72,6 +72,24 @@ example : (quotePart .query id true [97, 59, 98]).contains 59 = false ∧
     unquote (quotePart .query id true [97, 59, 98]) = [97, 59, 98] := by decide +kernel
 example : (stopSet .query).contains 59 = true := by decide
 
+/-! ## minimal quoting (`full_quote=False`) -/
+
+/-- minimal quoting leaves no character raw that the parser treats as a delimiter at that position … -/
+theorem quote_min_no_delimiter (c : Comp) (nfc : Text → Text) (s : Text) :
+    ∀ ch ∈ quotePart c nfc false s, ch ∉ stopSet c := by
+  intro ch hch
+  have := quoteMin_stop c s ch (by simpa [quotePart] using hch)
+  simpa using this
+
+/-- … and is undone by `unquote` for every text without `%` (non-ASCII characters stay raw; `min_needs_no_pct`
+    shows that the exclusion is necessary) -/
+theorem unquote_quote_min (c : Comp) (nfc : Text → Text) (s : Text) (hs : 37 ∉ s) :
+    unquote (quotePart c nfc false s) = s := by
+  simpa [quotePart] using unquote_quoteMin c s hs
+
+example : unquote (quotePart .path id false [97, 47, 63, 35, 233, 32, 0x1F600]) = [97, 47, 63, 35, 233, 32, 0x1F600] ∧
+    (quotePart .path id false [97, 47, 63, 35, 233, 32]).contains 47 = false := by decide +kernel
+
 /-! ## unquote decodes exactly the well-formed escapes -/
 
 /-- `unquote_to_bytes` is the reference decoder: `%` + two hex digits (either case) is the byte
@@ -411,8 +429,31 @@ theorem url_total (env : Env) (t : Text) :
   | ok u => exact Or.inl ⟨u, rfl⟩
   | error e => rw [ofText_err h]; exact Or.inr rfl
 
-/-- the port text is handed to `int()`: whatever it is - digits of any script, superscript or circled
-    digits (`str.isdigit` but not decimal), fractions, letters, white space of any kind - the outcome is a
+/-- `to_text` never raises in minimal mode; in full mode the only exception is the `UnicodeError` of the idna
+    encoder refusing a (non-IPv6) host -/
+theorem to_text_total (env : Env) (full : Bool) (u : URL) :
+    (∃ t, toText env full u = .ok t) ∨
+    (toText env full u = .error .unicodeError ∧ full = true ∧ u.host ≠ [] ∧ u.family ≠ .inet6 ∧
+      env.idnaEnc u.host = none) := by
+  unfold toText authority
+  by_cases hh : u.host = []
+  · left; simp [hh]
+  · by_cases h6 : u.family = .inet6
+    · left; simp [hh, h6]
+    · cases full with
+      | false => left; simp [hh, h6]
+      | true =>
+        cases he : env.idnaEnc u.host with
+        | some h => left; simp [hh, h6, he]
+        | none => right; simp [hh, h6, he]
+
+example : toText ⟨id, fun _ => false, fun _ => false, some, fun _ => none⟩ true u0 = .error .unicodeError := by
+  decide +kernel
+
+/-- the port text goes through the port reader of `parse_url` (the builtin `int()` in the code as it stands; its
+    parameters - accepted digit runs, stripped white space, sign, underscores - are regenerated by probing
+    `parse_url`): whatever the text is - digits of any script, superscript or circled digits (`str.isdigit` but not
+    decimal), fractions, letters, white space of any kind - and whatever the parameters are, the outcome is a
     port, no port (empty text), or URLParseError; no other exception -/
 theorem port_total (s : Text) :
     (∃ p, parsePort s = .ok p) ∨ parsePort s = .error .urlParseError := by
